@@ -33,7 +33,7 @@ CODES = {
 
 def run(ctx):
     ctx.static_and_proofs("select")
-    n = 90 if ctx.tier == "quick" else 1200
+    n = 240 if ctx.tier == "quick" else 2400
     args = ["-n", str(n)]
     only = None
     if ctx.replay:
